@@ -1059,6 +1059,9 @@ def explore(fn, timeout_ms=10000, prefix=(), max_paths=200000, sample_every=0, b
                     bn[1] += 1
                 elif r == "sat":
                     m = sp.last_model
+                    rm = robust_model(sp, z3.Not(f)) if not z3.is_false(f) or sp.pc else None
+                    if rm is not None:
+                        m = rm
                     rec = dict(ob=ob.name, choices=[list(c) for c in sp.choices], info=ob.info)
                     try:
                         rec["cex"] = ob.cex(m) if ob.cex else None
@@ -1086,6 +1089,48 @@ def explore(fn, timeout_ms=10000, prefix=(), max_paths=200000, sample_every=0, b
     st.update(queries=sp.nq, unsat=sp.n_unsat, sat=sp.n_sat, n_unknown=sp.n_unknown, branch_unknown=sp.n_branch_unknown,
               solver_s=round(sp.t_solver, 3), wall_s=round(time.time() - t0, 3))
     return st
+
+
+def _margin(f, delta, neg=False):
+    """f with every order atom strengthened by a margin delta (and negations pushed inwards): a model of the result satisfies f
+    ROBUSTLY, i.e. it stays a model under small perturbations - this is what makes a counterexample survive floating point on replay"""
+    d = z3.RealVal(str(delta))
+    if z3.is_not(f):
+        return _margin(f.arg(0), delta, not neg)
+    if z3.is_and(f) or z3.is_or(f):
+        parts = [_margin(c, delta, neg) for c in f.children()]
+        return (z3.Or if (z3.is_and(f) != (not neg)) else z3.And)(*parts) if len(parts) > 1 else parts[0]
+    if z3.is_app(f) and f.decl().kind() == z3.Z3_OP_IMPLIES:
+        a, b = f.children()
+        return _margin(z3.Or(z3.Not(a), b), delta, neg)
+    if z3.is_app(f) and f.num_args() == 2 and z3.is_arith(f.arg(0)):
+        l, r = f.arg(0), f.arg(1)
+        k = f.decl().kind()
+        if neg:
+            k = {z3.Z3_OP_LE: z3.Z3_OP_GT, z3.Z3_OP_LT: z3.Z3_OP_GE, z3.Z3_OP_GE: z3.Z3_OP_LT, z3.Z3_OP_GT: z3.Z3_OP_LE,
+                 z3.Z3_OP_EQ: z3.Z3_OP_DISTINCT, z3.Z3_OP_DISTINCT: z3.Z3_OP_EQ}.get(k, k)
+        if k in (z3.Z3_OP_LE, z3.Z3_OP_LT):
+            return l <= r - d
+        if k in (z3.Z3_OP_GE, z3.Z3_OP_GT):
+            return l >= r + d
+        if k == z3.Z3_OP_EQ:
+            return l == r
+        if k == z3.Z3_OP_DISTINCT:
+            return z3.Or(l <= r - d, l >= r + d)
+    return z3.Not(f) if neg else f
+
+
+def robust_model(sp, negated_ob, timeout_ms=5000):
+    """a model of pc /\ not(ob) in which every order relation holds with a margin (None if none is found quickly)"""
+    for delta in ("1/100", "1/10000"):
+        try:
+            cs = [_margin(a, delta) for a in sp.pc] + [_margin(negated_ob, delta)]
+        except Exception:  # noqa
+            return None
+        r, s = sp._solve("QF_NRA", cs, timeout_ms)
+        if r == z3.sat:
+            return s.model()
+    return None
 
 
 def _dump(dump_dir, sp, f, k):
